@@ -43,7 +43,7 @@ fn layers(id: &str) -> (&'static str, Vec<Layer>) {
         ]),
         "C05" => ("c05", vec![
             Layer { tool: Miri, kind: "race", extra: &[("scen", "2")], quick: 6, thorough: 96 },
-            Layer { tool: Miri, kind: "hist", extra: &[("hist", "2")], quick: 0, thorough: 32 },
+            Layer { tool: Miri, kind: "hist", extra: &[("hist", "3")], quick: 4, thorough: 48 },
             Layer { tool: Tsan, kind: "race", extra: &[("scen", "100")], quick: 0, thorough: 200 },
             Layer { tool: Asan, kind: "hist", extra: &[("hist", "60")], quick: 0, thorough: 32 },
             Layer { tool: Asan, kind: "race", extra: &[("scen", "60")], quick: 0, thorough: 32 },
